@@ -48,6 +48,15 @@ def handle(c):
         except Exception as e:
             init = {'error': type(e).__name__}
         return {'init': init, 'est': estimate(c, c['size'])}
+    if c['k'] == 'est':
+        # the estimate clause: kernel_cycle_length of the experiment kernel built from the same description, and the estimate on
+        # reps x L, reps x L + 1, reps x (cycle length without the calibration kernel) (+ 1), and the extra sizes of the case
+        e = RepetitionExperimentKernel(rounds=list(c['rounds']), heralded_initialization=c['h'], qutrit_calibration_points=c['c'],
+                                       involved_data_qubit_ids=data, involved_ancilla_qubit_ids=anc, experiment_repetitions=c['reps'])
+        L = ints(e.kernel_cycle_length)
+        L_rep = ints(e.indexing_kernels[-2].stop_index - e.start_index + 1)      # repetition kernels only (diagnostic for F15)
+        sizes = [c['reps'] * L, c['reps'] * L + 1, c['reps'] * L_rep, c['reps'] * L_rep + 1] + [int(s) for s in c.get('sizes', [])]
+        return {'L': L, 'L_rep': L_rep, 'sizes': sizes, 'ests': [estimate(c, s) for s in sizes]}
     q = qid(c['q'])
     e = RepetitionExperimentKernel(rounds=list(c['rounds']), heralded_initialization=c['h'], qutrit_calibration_points=c['c'],
                                    involved_data_qubit_ids=data, involved_ancilla_qubit_ids=anc, experiment_repetitions=c['reps'])
@@ -69,12 +78,6 @@ def handle(c):
                   'proj': ints(e.get_projected_cycle_acquisition_indices(q, n))} for n in c['queries']]
     out['cal_her'] = [ints(e.get_heralded_calibration_acquisition_indices(q, s)) for s in STATES]
     out['cal_proj'] = [ints(e.get_projected_calibration_acquisition_indices(q, s)) for s in STATES]
-    # dataset sizes for the estimate: reps x (cycle length of the description with flag c), that + 1, reps x kernel cycle length
-    L = out['L']
-    Lc = L if c['c'] else (out['ks'][-1]['stop'] - out['start'] + 1)
-    sizes = [c['reps'] * Lc, c['reps'] * Lc + 1, c['reps'] * L] + [int(s) for s in c.get('sizes', [])]
-    out['sizes'] = sizes
-    out['ests'] = [estimate(c, s) for s in sizes]
     return out
 
 
